@@ -63,7 +63,8 @@ def replay_obj(progs, specs, grp, rs, why, pr=None):
             "reference_accepts": [sorted([sorted([k, list(v)] for k, v in m) for m in x["acc"]]) for x in pr["preds"]] if pr else None,
             "unclaimed": [x["uncl"] for x in pr["preds"]] if pr else None,
             "reference_accepts_greedy": [sorted([sorted([k, list(v)] for k, v in m) for m in x["accG"]]) for x in pr["preds"]] if pr else None,
-            "members": [{"spec": specs[m["si"]]["str"], "prog": specs[m["si"]].get("prog", 0), "env": list(m["env"]), "argv": list(m["argv"])} for m in grp["members"]],
+            "members": [{"spec": specs[m["si"]]["str"], "prog": specs[m["si"]].get("prog", 0), "env": list(m["env"]), "argv": list(m["argv"]),
+                         "prerun": [list(x) for x in m.get("prerun", [])], "rawbyte": bool(m.get("rawbyte")), "posthelp": bool(m.get("posthelp"))} for m in grp["members"]],
             "observed": [{k: r.get(k) for k in ("ran", "err", "panic", "log", "hang", "crash") if k in r} for r in rs], "why": why}
 
 
@@ -74,8 +75,8 @@ def rerun_replay(path, wd, law="equal", only_opts=False):
     pf = os.path.join(wd, "progs.json")
     with open(pf, "w") as f:
         json.dump(o["progs"], f)
-    flat = [{"id": i, "prog": m["prog"], "spec": m["spec"], "env": m["env"], "argv": m["argv"]} for i, m in enumerate(o["members"])]
-    rs = core.run_harness(binpath, "exec", flat, wd, env={"HARNESS_PROGS": pf}, shards=1)
+    flat = [G.exec_case(i, {"prog": m["prog"], "str": m["spec"]}, m) for i, m in enumerate(o["members"])]
+    rs = [G.unhex(r) for r in core.run_harness(binpath, "exec", flat, wd, env={"HARNESS_PROGS": pf}, shards=1)]
     outs = [G.outcome(r, only_opts) for r in rs]
     for m, x in zip(o["members"], outs):
         print("replay: spec=%r env=%s argv=%s -> %s" % (m["spec"], m["env"], m["argv"], fmt(x)))
@@ -93,6 +94,10 @@ def rerun_replay(path, wd, law="equal", only_opts=False):
     if o.get("usage_expect") is not None and rs[0].get("usage") is not None and rs[0].get("err"):
         if rs[0]["usage"].rstrip() != o["usage_expect"]:
             print("replay: usage line %r, expected %r" % (rs[0]["usage"], o["usage_expect"]))
+            oracle_bad = True
+    if o.get("usage_expect") is not None and o["members"][0].get("posthelp") and not (rs[0].get("specerr") or rs[0].get("panic")):
+        if (rs[0].get("postusage") or "").rstrip() != o["usage_expect"]:
+            print("replay: usage line of PrintHelp after Run %r, expected %r" % (rs[0].get("postusage"), o["usage_expect"]))
             oracle_bad = True
     if law == "oracle":
         bad = oracle_bad
